@@ -183,6 +183,10 @@ func (d *daemon) dial(c Cred) (*grpc.ClientConn, error) {
 			spec.NotBefore, spec.NotAfter = time.Now().Add(-48*time.Hour), time.Now().Add(-24*time.Hour)
 		case "not-yet-valid":
 			spec.NotBefore, spec.NotAfter = time.Now().Add(24*time.Hour), time.Now().Add(48*time.Hour)
+		case "valid-in-a-minute":
+			spec.NotBefore, spec.NotAfter = time.Now().Add(60*time.Second), time.Now().Add(time.Hour)
+		case "expired-a-minute-ago":
+			spec.NotBefore, spec.NotAfter = time.Now().Add(-time.Hour), time.Now().Add(-60*time.Second)
 		}
 		switch c.EKU {
 		case "client":
@@ -501,7 +505,7 @@ func genCred(t *rapid.T) Cred {
 	c := Cred{
 		Transport: rapid.SampledFrom([]string{"plaintext", "tls-no-cert", "tls-cert", "tls-cert", "tls-cert", "tls-cert", "tls-cert"}).Draw(t, "transport"),
 		Issuer:    rapid.SampledFrom([]string{"ca", "ca", "other-ca", "self-signed"}).Draw(t, "issuer"),
-		Validity:  rapid.SampledFrom([]string{"valid", "valid", "valid", "expired", "not-yet-valid"}).Draw(t, "validity"),
+		Validity:  rapid.SampledFrom([]string{"valid", "valid", "valid", "valid", "expired", "not-yet-valid", "valid-in-a-minute", "expired-a-minute-ago"}).Draw(t, "validity"),
 		EKU:       rapid.SampledFrom([]string{"client", "client", "client", "server-only", "none"}).Draw(t, "eku"),
 		CN:        rapid.SampledFrom([]string{"alice", "alice", "alice", "bob", "carol", vkit.NodeName(1), "mallory", "", "Alice", "alice ", "ALICE", strings.ToUpper(vkit.NodeName(1)), vkit.NodeName(1) + "0"}).Draw(t, "cn"),
 		SAN:       rapid.SampledFrom([]string{"", "", "alice", "bob", vkit.NodeName(1), "mallory"}).Draw(t, "san"),
